@@ -401,7 +401,7 @@ impl TrigramIndex {
     pub fn add(&mut self, record: &Record)
         // C19/C18/C10: the record is appended at position `len`; posting lists stay strictly increasing (this is the debug_assert!)
         requires old(self).wf(), record.ix == old(self).len, old(self).len < 0x4000_0000, text_ok_s(record.title.words@, record.title.chars@.len() as int),
-        ensures final(self).wf(), final(self).len == old(self).len + 1, final(self).counts@ == old(self).counts@,
+        ensures final(self).wf(), final(self).len == old(self).len + 1, final(self).counts@ == old(self).counts@, // [C01 ALL]
             // C18: afterwards the posting lists hold what they held, plus the new position under exactly the grams of the new title
             forall|g: [char; 3], j: int| #[trigger] posted(final(self).dict@, g, j) <==> (posted(old(self).dict@, g, j) || (j == old(self).len && has_gram(record.title.words@, record.title.chars@, g@))), // [C18 C05 C03 C04]
     {
